@@ -294,7 +294,9 @@ func denoteBool(raw any) Result {
 		}
 		return rej("%q is not a boolean word", x)
 	case float32, float64:
-		return unsp("float to bool")
+		// the statement's lenient conversions for booleans are the boolean words (and the SDK's 0/1 integers);
+		// a float is not among them
+		return rej("%T is not a boolean representation", raw)
 	}
 	if n, ok, big := exactInt(raw); ok {
 		if !big && (n == 0 || n == 1) {
